@@ -18,6 +18,7 @@ from .printworld import PrintWorld, Violation, state_snapshot
 
 SP = seams._SP_mod
 GH = seams._GH_mod
+ERS = seams._ERS_mod
 
 
 _CANON = re.compile(r"^([GMT])\s*0*(\d+)(?:\.(\d+))?\s*(.*)$")
@@ -102,7 +103,12 @@ class OfflineWorld(object):
         before = state_snapshot(live_state)
         if k == "upload_new":
             self.proc = SP.StreamProcessor(io.BytesIO(b""), self.live.plugin.gcodeHandlers)
-            tstate = copy.deepcopy(live_state)
+            # the twin: an equal state of its own - built by the class's constructor (whatever the constructor wires
+            # up belongs to the twin) and loaded with a deep copy of the live state's data
+            tstate = ERS.ExcludeRegionState(self.live.plugin._logger)
+            for name, value in copy.deepcopy(live_state).__dict__.items():
+                if not callable(value):
+                    tstate.__dict__[name] = value
             self.twin = GH.GcodeHandlers(tstate, self.live.plugin._logger)
             self.eol_seen = None
             st = live_state
